@@ -22,7 +22,7 @@ Record ncase := mkCase {
   c_dst : N; c_ci : N; c_ch : N; c_lens : list N;
   c_infos : list c_info;
   c_hops : list c_hop;
-  c_kind : N;                                   (* 0 offered path, 1 reverse of an arrived offered path, 2 mutated, 3 one-hop, 7 lifetime *)
+  c_kind : N;                                   (* 0 offered path, 1 reverse of an arrived offered path, 2 mutated, 3 one-hop, 7 lifetime, 8 address *)
   c_meta_l : list c_ifc;                         (* interface list of the path metadata (kind 0/1) *)
   c_trace_l : list c_line;                      (* implementation: per-AS lines *)
   c_end : N;                                    (* 0 verdict, 1 iterator error, 2 panic, 3 step cap *)
@@ -200,10 +200,20 @@ Definition verdict_std (c : ncase) : N :=
             || Bool.eqb (optN_eqb (delivered_at itr) (Some (c_dst c)))
                  (forallb (fun '(ts, e) => spec_time_ok (c_now c) ts e)
                     (hops_with_ts (p_lens p) (p_infos p) (p_hops p))) in
+  (* address cases (kind 8): an offered path whose destination (or source) ISD-AS was rewritten.
+     A destination that is a wildcard form, or is not the AS the path ends in, is delivered
+     nowhere -- neither by the implementation nor by the reference router; with the right
+     destination the packet arrives whatever the source field says *)
+  let last_as := match rev (c_meta c) with (ia, _) :: _ => ia | [] => c_dst c end in
+  let o9 := negb (c_kind c =? 8)
+            || (if is_wildcard_ia (c_dst c) || negb (spec_local_dst last_as (c_dst c))
+                then optN_eqb (delivered_at itr) None && optN_eqb (rend_delivered rendv) None
+                else optN_eqb (delivered_at itr) (Some (c_dst c))
+                     && optN_eqb (rend_delivered rendv) (Some (c_dst c))) in
   let peering := uses_peering p in
   let shortcut := uses_shortcut p in
   let peer_change := names_peer_if_at_change t p in
-  let hard := negb (o1 && o2 && o3 && o8) in
+  let hard := negb (o1 && o2 && o3 && o8 && o9) in
   let soft_fail := negb (o4 && o5 && o6 && o7) in
   let k_peering := soft_fail && peering in
   let k_peer_change := soft_fail && negb peering && peer_change in
@@ -214,7 +224,7 @@ Definition verdict_std (c : ncase) : N :=
   (* diagnostic bits above 2^8 (ignored by the driver): which oracle failed *)
   + (if o4 then 0 else 256) + (if o5 then 0 else 512) + (if o6 then 0 else 1024) + (if o7 then 0 else 2048)
   + (if o1 then 0 else 4096) + (if o2 then 0 else 8192) + (if o3 then 0 else 16384)
-  + (if o8 then 0 else 32768).
+  + (if o8 then 0 else 32768) + (if o9 then 0 else 65536).
 
 Definition verdict (c : ncase) : N := if is_nil (c_lens c) then verdict_onehop c else verdict_std c.
 Definition verdicts (cs : list ncase) : list N := map verdict cs.
